@@ -96,6 +96,10 @@ func sendRequestToTarget(client *http.Client, req *http.Request, httpsDefault bo
 	changeRequestToTarget(req, httpsDefault)
 	// Remove hop-by-hop headers in the request that should not be forwarded to the target server.
 	removeHopByHopHeaders(req.Header)
+	if _, ok := req.Header["User-Agent"]; !ok {
+		// A client that names no user agent must not be given Go's: an empty value suppresses the default.
+		req.Header.Set("User-Agent", "")
+	}
 
 	slog.Debug("Sending request", "url", req.URL, "method", req.Method)
 	resp, err := client.Do(req)
